@@ -256,12 +256,22 @@ func (g *G) forIn(d int) *Stmt {
 		case 3:
 			body = append(body, &Stmt{K: SIf, E: x.In(g.arrayName(), x.Var(k)), Body: []*Stmt{exprStmt(x.Assign("+=", x.Var(acc), x.Num(2)))}})
 		case 4:
-			body = append(body, &Stmt{K: SIf, E: x.Bin(g.pick([]string{"<", ">=", "=="}), x.Index(arr, x.Var(k)), g.anyExpr(0)), Body: []*Stmt{{K: SContinue}}})
+			body = append(body, &Stmt{K: SIf, E: x.Bin(g.pick([]string{"<", ">=", "=="}), x.Index(arr, x.Var(k)), g.forInOperand()), Body: []*Stmt{{K: SContinue}}})
 		default:
 			body = append(body, exprStmt(x.Assign("+=", x.Var(acc), x.Bin("*", x.Index(arr, x.Var(k)), x.Num(2)))))
 		}
 	}
 	return &Stmt{K: SForIn, Var: k, Arr: arr, Body: body}
+}
+
+// forInOperand is an operand for a comparison inside a for-in body: it must not create an
+// element of any array (whether an element inserted during the walk is visited is unspecified)
+// and must not call anything.
+func (g *G) forInOperand() *x.E {
+	if g.chance(50) {
+		return x.Var(g.scalarName())
+	}
+	return x.Num(float64(g.R.Intn(6)))
 }
 
 // ioStmts: getline forms, file round trips, commands. Command output streams are closed
